@@ -2,9 +2,18 @@ use crate::runner::Prop;
 
 pub mod c01;
 pub mod c03;
+pub mod hist;
 
 pub fn all() -> Vec<Box<dyn Prop>> {
-    vec![Box::new(c01::C01 { which: 1 }), Box::new(c01::C01 { which: 2 }), Box::new(c03::C03)]
+    vec![Box::new(c01::C01 { which: 1 }), Box::new(c01::C01 { which: 2 }), Box::new(c03::C03),
+        Box::new(hist::Hist { id: "C06" }),
+        Box::new(hist::Hist { id: "C07" }),
+        Box::new(hist::Hist { id: "C08" }),
+        Box::new(hist::Hist { id: "C09" }),
+        Box::new(hist::Hist { id: "C10" }),
+        Box::new(hist::Hist { id: "C11" }),
+        Box::new(hist::Hist { id: "C29" }),
+    ]
 }
 
 pub fn get(id: &str) -> Option<Box<dyn Prop>> {
